@@ -201,7 +201,7 @@ def work_generated(ctx, seed):
 def work_patho(ctx, seed):
     import random
     rng = random.Random(seed)
-    which = [gen.patho_dup_function, gen.patho_mixed_fused, gen.patho_spd][seed % 3]
+    which = [gen.patho_dup_function, gen.patho_mixed_fused, gen.patho_spd, gen.patho_spd_free_low, gen.patho_pd_fused][seed % 5]
     b = which(rng)
     for op, args in OPS:
         check_op(ctx, b, op, args, 'patho:%s:%d' % (which.__name__, seed), 'patho:' + which.__name__)
